@@ -84,6 +84,7 @@ def _work(args) -> dict:
             try:
                 kwargs = {snake(kk): sub.build(vv) for kk, vv in tv.props.items()}
             except Exception:
+                res["surrounding_not_built"] = res.get("surrounding_not_built", 0) + 1
                 return  # the valid surrounding cannot be built: C02's matter
             kwargs[attr] = v
             expect = lo <= v <= hi
@@ -296,6 +297,7 @@ def run(ctx: Ctx) -> None:
         "evaluations": evaluations, "distinct_nontrivial": len(distinct), "rule": RULE, "samples": samples[:6],
         "integer_typed_attributes": len(tg), "in_range_probes": acc, "out_of_range_probes": rej, "int_subclass_probes": subclass_probes,
         "validator_function_calls": vstats, "exhaustive": False,
+        "probes_not_judged_surrounding_not_built": sum(r.get("surrounding_not_built", 0) for r in results),
         "note": "the attribute x boundary-set dimension is enumerated completely; surroundings and extra ints are sampled",
     })
     ctx.assumptions = ["bool is excluded from the int verdict comparison (the property speaks of ints; Python's bool is an int subclass)"]
